@@ -123,6 +123,74 @@ def run(tier: str, seed: int, reg: Any, jobs: int = 16) -> list:
             if got2 != (0x2000, exp_len, exp_word) and len(fails) < 6:
                 fails.append({"inputs": {"statement": f"load {patt}{sfx} > {rng};"},
                               "detail": f"became {got2!r}, expected (0x2000, {exp_len:#x}, {exp_word:#x})", "obligation": "bd-fill-statement"})
-    return [{"name": "BD expressions and fill statements through lexer + LALR parser", "function": "spsdk.sbfile.sb2.sly_bd_parser:BDParser.parse",
+    sect = _sections(rnd, 3 if tier == "quick" else 25)
+    # several definitions with string values written on ONE line resolve to their own strings
+    for names in (["a", "b"], ["first", "second", "third"]):
+        n += 1
+        vals = {nm: f"dir{i}/{nm}.bin" for i, nm in enumerate(names)}
+        prog = "options { flags = 0x8; }\nsources { " + " ".join(f'{k} = "{v}";' for k, v in vals.items()) + " }\nsection (0) { }\n"
+        try:
+            got3: Any = BDParser().parse(prog, extern=[]).get("sources")
+        except Exception as e:  # pylint: disable=broad-except
+            got3 = f"{type(e).__name__}: {e}"
+        if got3 != vals and len(fails) < 8:
+            fails.append({"inputs": {"program": prog}, "detail": f"sources resolved to {got3!r}, the program defines {vals!r}", "obligation": "bd-definitions-resolve-to-their-own-strings"})
+    return [sect, {"name": "BD expressions and fill statements through lexer + LALR parser", "function": "spsdk.sbfile.sb2.sly_bd_parser:BDParser.parse",
              "method": "seeded programs from the expression grammar vs an independent precedence-climbing evaluator", "bound": f"{n} programs",
              "cases": n, "label": "bounded", "failures": fails}]
+
+
+def _sections(rnd: random.Random, programs: int) -> dict:
+    """Programs with 1-4 sections of payload-free statements compiled the way `nxpimage sb21 export` does (parse_sb21_config -> load_from_config):
+    boot section k of the image holds exactly the statements of BD section k - tags, addresses, lengths, words computed here by ordinary arithmetic."""
+    import os
+    import tempfile
+
+    from spsdk.crypto.signature_provider import get_signature_provider
+    from spsdk.sbfile.sb2.images import BootImageV21
+
+    repo = os.environ.get("VF_REPO", "/repo")
+    data = os.path.join(repo, "tests", "nxpimage", "data", "sb_sources")
+    certs = os.path.join(data, "keys_and_certs")
+    fails: list = []
+    n = 0
+
+    def statement() -> tuple:
+        k = rnd.randrange(3)
+        if k == 0:
+            a, pages = rnd.randrange(0, 1 << 20) * 0x1000, rnd.randrange(1, 9)
+            return f"erase (0x{a:x})..(0x{a:x} + {pages} * page);", (7, a, pages * 0x1000, 0)
+        if k == 1:
+            b = rnd.randrange(1, 256)
+            lo = rnd.randrange(0, 1 << 16) * 4
+            ln = rnd.randrange(1, 64) * 4
+            return f"load 0x{b:x}.b > 0x{lo:x}..0x{lo + ln:x};", (3, lo, ln, b * 0x01010101)
+        a, arg = rnd.getrandbits(32), rnd.getrandbits(16)
+        return f"jump 0x{a:x} (0x{arg:x} | 1);", (4, a, 0, arg | 1)
+
+    for _ in range(programs):
+        n += 1
+        sections = [[statement() for _ in range(rnd.randrange(1, 4))] for _ in range(rnd.choice([1, 2, 3, 4]))]
+        text = ('options { flags = 0x8; buildNumber = 0x1; productVersion = "1.00.00"; componentVersion = "1.00.00"; secureBinaryVersion = "2.1"; }\n'
+                "constants { page = 1 << 12; }\n" + "".join("section (%d) {\n%s\n}\n" % (i, "\n".join(t for t, _ in sec)) for i, sec in enumerate(sections)))
+        try:
+            with tempfile.TemporaryDirectory() as tmp:
+                bd = os.path.join(tmp, "p.bd")
+                with open(bd, "w", encoding="utf-8") as f:
+                    f.write(text)
+                sb = BootImageV21.load_from_config(
+                    config=BootImageV21.parse_sb21_config(bd), key_file_path=os.path.join(data, "keys", "SBkek_PUF.txt"),
+                    signature_provider=get_signature_provider(local_file_key=os.path.join(certs, "k0_cert0_2048.pem")),
+                    signing_certificate_file_paths=[os.path.join(certs, "root_k0_signed_cert0_noca.der.cert")],
+                    root_key_certificate_paths=[os.path.join(certs, f"root_k{i}_signed_cert0_noca.der.cert") for i in range(4)],
+                    rkth_out_path=os.path.join(tmp, "hash.bin"), search_paths=[tmp])
+            got = [[(c.header.tag, c.header.address, c.header.count, c.header.data) for c in bs._commands] for bs in sb.boot_sections]
+            want = [[w for _, w in sec] for sec in sections]
+            problem = None if got == want else f"boot sections hold {got}, the program says {want}"
+        except Exception as e:  # pylint: disable=broad-except
+            problem = f"{type(e).__name__}: {e}"
+        if problem and len(fails) < 3:
+            fails.append({"inputs": {"program": text}, "detail": problem[:600], "obligation": "bd-section-k-holds-exactly-its-own-statements"})
+    return {"name": "multi-section BD programs through parse_sb21_config and load_from_config", "function": "spsdk.sbfile.sb2.images:BootImageV21.load_from_config",
+            "method": "seeded programs of 1-4 sections (erase / pattern fill / jump with constant expressions); expected command words computed independently",
+            "bound": f"{n} programs", "cases": n, "label": "bounded", "failures": fails}
